@@ -414,8 +414,8 @@ def m1_run(ctx):
              (au.is_self_attr(t) and isinstance(st.value, ast.Call) and au.call_tail(st.value) == "Attribute")}
     need = {"feature_vertices", "feature_edges", "feature_degrees", "local_feat_edges"}
     n += 1
-    ctx.check(need <= reset, "C15-M1", ctx.site(FEAT, clr), f"clear() does not reset {sorted(need - reset)}",
-              "a second run accumulates on top of the first: degrees are doubled, stale feature edges remain",
+    ctx.check(need <= reset, "C15-M1", ctx.site(FEAT, clr), "clear() does not reset the four feature containers",
+              f"not reset: {sorted(need - reset)}; a second run accumulates on top of the first: degrees are doubled, stale feature edges remain",
               note="clear resets the four containers")
     ini = repo.func(FEAT, f"{DET}.__init__")
     ob = [st for st in au.stmts(ini.body) if isinstance(st, (ast.Assign, ast.AnnAssign))
@@ -699,34 +699,54 @@ def b1_boundary(ctx):
                    and H.is_name(s.targets[0].slice, x) and isinstance(s.value, ast.Name)
                    and s.targets[0].value.id != info["vis"]]
         # the offset is the name that is incremented inside the vertex loop
-        offs = [(s, t, s.value.id) for s, t in mstores if any(H.increments(q, s.value.id) is not None for q in au.stmts(mark.body))]
-        if len(offs) != 1:
-            ctx.fail("C15-B1", ctx.site(BORD, fn, mark), "extract_boundary_of_surface: store `map[v] = running offset` not found in the vertex loop",
-                     "the index map must send each border vertex to its position in the polyline")
-            return
-        mst, mt, off = offs[0]
-        mp = mt.value.id
-        incs = [(q, H.increments(q, off)) for q in au.stmts(fn.body) if H.increments(q, off) is not None]
-        writes = [q for q in au.stmts(fn.body) if any(off in au.assigned_names(t) for t in au.assign_targets(q))]
-        init = [q for q in writes if q in fn.body and isinstance(q, ast.Assign) and au.const(q.value) == 0
-                and q.lineno < info["outer"].lineno]
         apps = [c for c in au.calls(fn) if isinstance(c.func, ast.Attribute) and c.func.attr == "append"
                 and au.src(c.func.value).endswith(".vertices")]
         bound = au.src(apps[0].func.value)[:-len(".vertices")] if apps else None
-        ok_inc = len(incs) == 1 and incs[0][1] == 1 and incs[0][0] in mark.body and len(writes) == 2 and len(init) == 1
-        ctx.check(ok_inc, "C15-B1", ctx.site(BORD, fn, mark),
-                  f"extract_boundary_of_surface: running offset `{off}` is not `0, then += 1 once per visited vertex`",
-                  "the offset must equal the number of vertices already appended to the polyline (indices 0..n-1)",
-                  note=f"offset {off}: 0 then +1 per vertex")
-        ok_app = len(apps) == 1 and au.enclosing_stmt(apps[0]) in mark.body and len(apps[0].args) == 1 \
-            and au.src(apps[0].args[0]) == f"{mesh}.vertices[{x}]"
-        ctx.check(ok_app, "C15-B1", ctx.site(BORD, fn, mark),
-                  "extract_boundary_of_surface: not exactly one `bound.vertices.append(mesh.vertices[v])` per visited vertex",
-                  "vertex k of the polyline must be the k-th visited border vertex", note="one vertex appended per visited vertex")
-        ok_order = ok_inc and mst in mark.body and H.block_pos(mst) < H.block_pos(incs[0][0])
-        ctx.check(ok_order, "C15-B1", ctx.site(BORD, fn, mst),
-                  f"extract_boundary_of_surface: `{mp}[v]` reads the offset after it has been advanced",
-                  "the map would point to the next vertex (off by one)", note="offset read before increment")
+        # accepted alternative (fresh-index idiom): map[v] = len(bound.vertices) read before the append of that vertex
+        fresh = [(s, s.targets[0]) for s in mark.body if isinstance(s, ast.Assign) and len(s.targets) == 1
+                 and isinstance(s.targets[0], ast.Subscript) and isinstance(s.targets[0].value, ast.Name)
+                 and H.is_name(s.targets[0].slice, x) and bound and au.src(s.value) == f"len({bound}.vertices)"]
+        off = None
+        if len(fresh) == 1:
+            mst, mt = fresh[0]
+            mp = mt.value.id
+            ok_app = len(apps) == 1 and au.enclosing_stmt(apps[0]) in mark.body and len(apps[0].args) == 1 \
+                and au.src(apps[0].args[0]) == f"{mesh}.vertices[{x}]"
+            ctx.check(ok_app, "C15-B1", ctx.site(BORD, fn, mark),
+                      "extract_boundary_of_surface: not exactly one `bound.vertices.append(mesh.vertices[v])` per visited vertex",
+                      "vertex k of the polyline must be the k-th visited border vertex", note="one vertex appended per visited vertex")
+            ctx.check(ok_app and H.block_pos(mst) < H.block_pos(au.enclosing_stmt(apps[0])), "C15-B1", ctx.site(BORD, fn, mst),
+                      f"extract_boundary_of_surface: `{mp}[v]` reads len(polyline vertices) after the vertex has been appended",
+                      "the map would point to the next vertex (off by one)", note="fresh index read before the append")
+        else:
+            offs = [(s, t, s.value.id) for s, t in mstores if any(H.increments(q, s.value.id) is not None for q in au.stmts(mark.body))]
+            if len(offs) != 1:
+                ctx.fail("C15-B1", ctx.site(BORD, fn, mark), "extract_boundary_of_surface: store `map[v] = running offset` not found in the vertex loop",
+                         "the index map must send each border vertex to its position in the polyline")
+                return
+            mst, mt, off = offs[0]
+            mp = mt.value.id
+            incs = [(q, H.increments(q, off)) for q in au.stmts(fn.body) if H.increments(q, off) is not None]
+            writes = [q for q in au.stmts(fn.body) if any(off in au.assigned_names(t) for t in au.assign_targets(q))]
+            init = [q for q in writes if q in fn.body and isinstance(q, ast.Assign) and au.const(q.value) == 0
+                    and q.lineno < info["outer"].lineno]
+            apps = [c for c in au.calls(fn) if isinstance(c.func, ast.Attribute) and c.func.attr == "append"
+                    and au.src(c.func.value).endswith(".vertices")]
+            bound = au.src(apps[0].func.value)[:-len(".vertices")] if apps else None
+            ok_inc = len(incs) == 1 and incs[0][1] == 1 and incs[0][0] in mark.body and len(writes) == 2 and len(init) == 1
+            ctx.check(ok_inc, "C15-B1", ctx.site(BORD, fn, mark),
+                      f"extract_boundary_of_surface: running offset `{off}` is not `0, then += 1 once per visited vertex`",
+                      "the offset must equal the number of vertices already appended to the polyline (indices 0..n-1)",
+                      note=f"offset {off}: 0 then +1 per vertex")
+            ok_app = len(apps) == 1 and au.enclosing_stmt(apps[0]) in mark.body and len(apps[0].args) == 1 \
+                and au.src(apps[0].args[0]) == f"{mesh}.vertices[{x}]"
+            ctx.check(ok_app, "C15-B1", ctx.site(BORD, fn, mark),
+                      "extract_boundary_of_surface: not exactly one `bound.vertices.append(mesh.vertices[v])` per visited vertex",
+                      "vertex k of the polyline must be the k-th visited border vertex", note="one vertex appended per visited vertex")
+            ok_order = ok_inc and mst in mark.body and H.block_pos(mst) < H.block_pos(incs[0][0])
+            ctx.check(ok_order, "C15-B1", ctx.site(BORD, fn, mst),
+                      f"extract_boundary_of_surface: `{mp}[v]` reads the offset after it has been advanced",
+                      "the map would point to the next vertex (off by one)", note="offset read before increment")
         # polyline starts empty
         bdef = [s for s in fn.body if isinstance(s, ast.Assign) and bound and any(H.is_name(t, bound) for t in s.targets)]
         ctx.check(len(bdef) == 1 and isinstance(bdef[0].value, ast.Call) and not bdef[0].value.args and not bdef[0].value.keywords,
